@@ -150,7 +150,9 @@ def collect_metadata(path, measure_set):
     meta = {
         "TIME_SYSTEM": measure_set.start.scale.name,
         "START_TIME": measure_set.start.strftime(DATE_FMT_DEFAULT),
-        "STOP_TIME": measure_set.stop.strftime(DATE_FMT_DEFAULT),
+        "STOP_TIME": measure_set.stop.change_scale(
+            measure_set.start.scale.name
+        ).strftime(DATE_FMT_DEFAULT),
     }
 
     i = 0
@@ -228,7 +230,7 @@ def _dumps_kvn(data, **kwargs):
             txt.append(
                 "{name:20} = {date:{DATE_FMT_DEFAULT}} {value:{value_fmt}}".format(
                     name=name,
-                    date=m.date,
+                    date=m.date.change_scale(measure_set.start.scale.name),
                     DATE_FMT_DEFAULT=DATE_FMT_DEFAULT,
                     value=value,
                     value_fmt=value_fmt,
@@ -266,7 +268,9 @@ def _dumps_xml(data, **kwargs):
             obs = ET.SubElement(data_tag, "observation")
 
             epoch = ET.SubElement(obs, "EPOCH")
-            epoch.text = m.date.strftime(DATE_FMT_DEFAULT)
+            epoch.text = m.date.change_scale(measure_set.start.scale.name).strftime(
+                DATE_FMT_DEFAULT
+            )
             name, value, value_fmt = encode_measurement(m)
 
             field = ET.SubElement(obs, name)
